@@ -24,7 +24,15 @@ def _c14_case(c):
 # vm_compute and compared with what the extracted OCaml runner printed (model.txt).
 # This cross-checks the extraction and the OCaml driver, not the implementation.
 
-_VM_PRELUDE = """From Oras Require Import Base.Prelude Model.Referrers Model.Merge.
+_VM_PRELUDE = """From Oras Require Import Base.Prelude Model.Referrers Model.Merge Model.Live.
+Definition y_in (k : N) (l : list N) : bool := existsb (N.eqb k) l.
+Definition y_filt (live busy taint zs : list N) : list N :=
+  filter (fun k => negb (y_in k zs) && negb (y_in k (busy ++ taint))) live.
+Definition y_seteq (a b : list N) : bool := forallb (fun k => y_in k b) a && forallb (fun k => y_in k a) b.
+Fixpoint y_dedup (l : list N) : list N :=
+  match l with [] => [] | x :: t => if y_in x t then y_dedup t else x :: y_dedup t end.
+Definition y_b (busy taint zs : list N) : nat :=
+  length (y_dedup (filter (fun k => negb (y_in k zs)) (busy ++ taint))).
 Definition batches (log : list obs) : list (nat * list nat) :=
   flat_map (fun o => match o with OBatch m ms => [(m, ms)] | _ => [] end) log.
 Definition puts (log : list obs) : list (list N) :=
@@ -65,6 +73,17 @@ def _vm_vis(evs):
                 continue
             out.append("V%s %s%%nat %s" % (e[0], t, "true" if f == "1" else "false"))
     return _vm_lst(out, "vis")
+
+
+def _vm_lvis(evs):
+    out = []
+    for e in evs:
+        if e[0] in "MNQ":
+            out.append("V%s %s%%nat" % (e[0], e[1:]))
+        else:
+            one = _vm_vis([e])
+            out.append("LV (%s)" % one[1:-1])
+    return _vm_lst(out, "lvis")
 
 
 def _vm_results(tok):
@@ -109,6 +128,14 @@ def _vm_goal(case, out):
                 return None
             return "pool_trace None %s = %s" % (_vm_lst(["true" if x[0] == "g" else "false" for x in p[1:]], "bool"),
                                                 _vm_lst(["true" if ch == "N" else "false" for ch in o[1]], "bool"))
+        if p[0] == "Y":
+            # Y <sg> <init0> <live0> <changes> <z> <ev>...  ->  Y L <l> B <b>
+            r0 = "None" if p[2] == "none" else "(Some %s)" % _vm_lst([] if p[2] == "-" else ["(mkDesc %s 0 0)" % k for k in p[2].split(",")], "desc")
+            call = "lvis_summary %s %s %s %s %s" % ("true" if p[1] == "1" else "false", r0, _vm_ns(p[3]), _vm_changes(p[4]), _vm_lvis(p[6:]))
+            if o[0] == "REJECT":
+                return call + " = None"
+            return ("match %s with Some (live, busy, taint) => (y_seteq (y_filt live busy taint %s) %s, y_b busy taint %s) = (true, %s%%nat) | None => False end"
+                    % (call, _vm_ns(p[5]), _vm_ns(o[2]), _vm_ns(p[5]), o[4]))
         if p[0] == "M":
             n = int(p[1])
             changes = _vm_lst(["Add (mkDesc %d 0 0)" % (t + 1) for t in range(n)], "change")
@@ -145,7 +172,7 @@ def _c14_vm_sample(d, tier, coq, build, want=300):
         for l in f:
             i, _, o = l.rstrip("\n").partition(" ")
             outs[i] = o
-    quota = {"A": 90, "R": 20, "F": 20, "T": 20, "K": 10, "D": 20, "M": 70, "X": 70, "L": 20, "XL": 25, "P": 15}
+    quota = {"A": 90, "R": 20, "F": 20, "T": 20, "K": 10, "D": 20, "M": 70, "X": 70, "L": 20, "XL": 25, "P": 15, "Y": 40}
 
     def kind(c):
         k = c.split(" ", 1)[0]
